@@ -14,6 +14,8 @@ import GIV.Lemmas.DiffRender
 import GIV.Lemmas.DiffTgs
 import GIV.Lemmas.DiffParse
 import GIV.Lemmas.DiffGo
+import GIV.Lemmas.DiffGoTgs
+import GIV.Lemmas.DiffGoMain
 
 namespace GIV.C08
 open GIV GIV.Diff
@@ -326,5 +328,105 @@ theorem go_lines_faithful (a b : Bytes) :
 example : GIV.Go.Diff.lines [97, 10, 98] = some [[97, 10], [98] ++ noNewline] := by decide +kernel
 example : GIV.Go.Diff.lines [97, 10] = some [[97, 10]] := by decide +kernel
 example : GIV.Go.Diff.lines [] = some [] := by decide +kernel
+
+/-! ### `tgs` of the Go source itself
+
+`GIV.Go.Diff.tgs` is the Lean translation of `func tgs` of diff/diff.go, regenerated on every check run together with
+`lines` (GIV/Gen/DiffGo.lean): the `map[string]int` of counts is a functional map (GIV/GoLibMap.lean), `sort.Search`
+is Go's binary search loop (GIV/GoLibSort.lean), every index, `make` and slice is checked (`none` = panic), the
+backward scan runs on a budget. -/
+
+/-- The translated `tgs` is the model's `tgs` — pairs of Go ints for pairs of naturals — for all line lists, panics
+and budgets included. -/
+theorem go_tgs_agrees (x y : List Bytes) :
+    GIV.Go.Diff.tgs x y = (tgs x y).map (List.map GIV.Go.Diff.ofPair) := GIV.Go.Diff.go_tgs_eq x y
+
+/-- `tgs_ok` over the translated source: `tgs` of diff.go never panics (no index out of range in T, L, J, xi, yi, seq;
+`make([]pair, 2+k)` with `k ≥ 0`; the budget of the backward scan suffices), and its result is the sentinel `{0,0}`,
+then pairs `{i, j}` strictly increasing in both fields with `x[i] = y[j]` a line that occurs nowhere else in `x` and
+nowhere else in `y`, then the sentinel `{len(x), len(y)}`. -/
+theorem go_tgs_ok (x y : List Bytes) : ∃ s mid, GIV.Go.Diff.tgs x y = some (s.map GIV.Go.Diff.ofPair) ∧
+    s = (0, 0) :: mid ++ [(x.length, y.length)] ∧
+    mid.Pairwise (fun p q => p.1 < q.1 ∧ p.2 < q.2) ∧
+    ∀ p ∈ mid, ∃ a, x[p.1]? = some a ∧ y[p.2]? = some a ∧ (∀ i, x[i]? = some a → i = p.1) ∧ (∀ j, y[j]? = some a → j = p.2) := by
+  obtain ⟨s, mid, h1, h2, h3, h4⟩ := tgs_ok x y
+  exact ⟨s, mid, by rw [go_tgs_agrees, h1]; rfl, h2, h3, h4⟩
+
+-- the generated definitions, evaluated by the kernel: x = [a,b,c,d], y = [c,a,b,d] (the increasing subsequence a,b,d
+-- of the unique common lines), and a line that occurs twice on one side is no anchor
+example : GIV.Go.Diff.tgs [[1], [2], [3], [4]] [[3], [1], [2], [4]] =
+    some [⟨0, 0⟩, ⟨0, 1⟩, ⟨1, 2⟩, ⟨3, 3⟩, ⟨4, 4⟩] := by decide +kernel
+example : GIV.Go.Diff.tgs [[1], [2], [1]] [[1], [2]] = some [⟨0, 0⟩, ⟨1, 1⟩, ⟨3, 2⟩] := by decide +kernel
+example : GIV.Go.Diff.tgs [] [] = some [⟨0, 0⟩, ⟨0, 0⟩] := by decide +kernel
+
+/-! ### `Diff` of the Go source itself
+
+`GIV.Go.Diff.Diff` is the Lean translation of `func Diff` of diff/diff.go, regenerated on every check run
+(GIV/Gen/DiffMainGo.lean; it calls the translated `lines` and `tgs`): the `bytes.Equal` shortcut, the `bytes.Buffer`
+with its three header `Fprintf`s, the loop over the matches with the struct-typed locals `done chunk count start end`,
+the two match-expanding loops (on budgets), the `ctext` strings (`"-"+s`, `"+"+s`, `" "+s`), the hunk header
+`Fprintf("@@ -%d,%d +%d,%d @@\n", …)` and `out.WriteString` per chunk, every index and slice checked (`none` = panic). -/
+
+/-- The translated `Diff` is the model's `diff`, for all names and texts — byte for byte, panics and loop budgets
+included.  (The translated loop prints each chunk when it closes it; the model collects structured hunks and renders
+them at the end: `GIV.Go.Diff.Diff_loop1_eq` is the simulation between the two.) -/
+theorem go_Diff_agrees (n₁ a n₂ b : Bytes) : GIV.Go.Diff.Diff n₁ a n₂ b = diff n₁ a n₂ b :=
+  GIV.Go.Diff.go_Diff_eq n₁ a n₂ b
+
+/-- `Diff` of diff.go never panics: no index or slice out of range (`x[start.x-1]`, `x[done.x:start.x]`,
+`x[start.x:start.x+n]`, `x[chunk.x:end.x]` with `chunk = end − C ≥ 0`, `ctext[:0]`, and everything inside `tgs`), and
+the budgets of the translated loops suffice. -/
+theorem go_Diff_total (n₁ a n₂ b : Bytes) : ∃ out, GIV.Go.Diff.Diff n₁ a n₂ b = some out := by
+  rw [go_Diff_agrees]
+  by_cases h : a = b
+  · exact ⟨[], (diff_nil_iff n₁ a n₂ b).mpr h⟩
+  · obtain ⟨hs, h1, _⟩ := diff_correct n₁ a n₂ b h
+    exact ⟨_, h1⟩
+
+/-- `diff_nil_iff` over the translated source: Diff returns nothing (a nil slice) exactly when the two texts are
+byte-identical. -/
+theorem go_diff_nil_iff (n₁ a n₂ b : Bytes) : GIV.Go.Diff.Diff n₁ a n₂ b = some [] ↔ a = b := by
+  rw [go_Diff_agrees]; exact diff_nil_iff n₁ a n₂ b
+
+/-- `diff_correct` over the translated source: for different texts the bytes `Diff` of diff.go returns are the three
+header lines followed by the rendering of a hunk list that is well-formed against the lines of `a` and `b`, patches
+`lines a` into `lines b` and, reversed, `lines b` into `lines a` (and `lines` loses nothing of the texts). -/
+theorem go_diff_correct (n₁ a n₂ b : Bytes) (h : a ≠ b) :
+    ∃ hs, GIV.Go.Diff.Diff n₁ a n₂ b = some (headerBytes n₁ n₂ ++ (hs.map hunkBytes).flatten) ∧
+      HunksWF (lines a) (lines b) hs ∧
+      apply (lines a) hs = some (lines b) ∧ unapply (lines b) hs = some (lines a) ∧
+      unlines (lines a) = a ∧ unlines (lines b) = b := by
+  rw [go_Diff_agrees]; exact diff_correct n₁ a n₂ b h
+
+/-- `diff_roundtrip` over the translated source: for different texts the output of `Diff` of diff.go parses
+(count-driven) as a unified diff whose hunks are well-formed and, applied to the old text, give the new text — and,
+reversed, applied to the new text give the old one. -/
+theorem go_diff_roundtrip (n₁ a n₂ b : Bytes) (h : a ≠ b) :
+    ∃ out hs, GIV.Go.Diff.Diff n₁ a n₂ b = some out ∧ parsePatch n₁ n₂ out = some hs ∧ HunksWF (lines a) (lines b) hs ∧
+      (apply (lines a) hs).map unlines = some b ∧ (unapply (lines b) hs).map unlines = some a := by
+  rw [go_Diff_agrees]; exact diff_roundtrip n₁ a n₂ b h
+
+-- the generated definitions, evaluated by the kernel.  A two-line change in texts WITHOUT final newline,
+-- "a\nb\nc\nd" → "a\nB\nC\nd": one hunk `@@ -1,4 +1,4 @@`, ` a`, `-b`, `-c`, `+B`, `+C`, ` d` + the warning
+example : GIV.Go.Diff.Diff [111] [97, 10, 98, 10, 99, 10, 100] [110] [97, 10, 66, 10, 67, 10, 100] =
+    some (headerBytes [111] [110] ++ ([64, 64, 32, 45, 49, 44, 52, 32, 43, 49, 44, 52, 32, 64, 64, 10] ++
+      [32, 97, 10] ++ [45, 98, 10] ++ [45, 99, 10] ++ [43, 66, 10] ++ [43, 67, 10] ++ (32 :: 100 :: noNewline))) := by
+  decide +kernel
+-- only the final newline differs: "a\nb" → "a\nb\n"
+example : GIV.Go.Diff.Diff [111] [97, 10, 98] [110] [97, 10, 98, 10] =
+    some (headerBytes [111] [110] ++ ([64, 64, 32, 45, 49, 44, 50, 32, 43, 49, 44, 50, 32, 64, 64, 10] ++
+      [32, 97, 10] ++ (45 :: 98 :: noNewline) ++ [43, 98, 10])) := by
+  decide +kernel
+-- identical texts: nothing; an empty old text: `@@ -0,0 +1,1 @@`
+example : GIV.Go.Diff.Diff [111] [97, 10] [110] [97, 10] = some [] := by decide +kernel
+example : GIV.Go.Diff.Diff [111] [] [110] [97, 10] =
+    some (headerBytes [111] [110] ++ ([64, 64, 32, 45, 48, 44, 48, 32, 43, 49, 44, 49, 32, 64, 64, 10] ++ [43, 97, 10])) := by
+  decide +kernel
+-- and the two-line change read back: the parsed hunks applied to the old text give the new text
+example : ∃ out hs, GIV.Go.Diff.Diff [111] [97, 10, 98, 10, 99, 10, 100] [110] [97, 10, 66, 10, 67, 10, 100] = some out ∧
+    parsePatch [111] [110] out = some hs ∧
+    (apply (lines [97, 10, 98, 10, 99, 10, 100]) hs).map unlines = some [97, 10, 66, 10, 67, 10, 100] :=
+  let ⟨out, hs, h1, h2, _, h4, _⟩ := go_diff_roundtrip [111] [97, 10, 98, 10, 99, 10, 100] [110] [97, 10, 66, 10, 67, 10, 100] (by decide)
+  ⟨out, hs, h1, h2, h4⟩
 
 end GIV.C08
